@@ -109,3 +109,52 @@ fn c01_quotients_and_remainders() {
     kani::cover!(e < 0 && p == 14);
     kani::cover!(p == 0);
 }
+
+// ================================================================================================
+// C01.4: fixed-predictor residuals by repeated differencing
+// ================================================================================================
+
+/// For k = 0..=4 and t >= k: errors[k][t] is the exact k-th difference (no wrap for samples of up
+/// to 25 bits, the side-channel width) and an RFC 9639 fixed predictor of order k reproduces the
+/// sample: predict_k(s[t-1], .., s[t-k]) + errors[k][t] == s[t].
+fn c01_fixed_errors_body<const N: usize>() {
+    let s: [i32; N] = kani::any();
+    let mut i = 0;
+    while i < N {
+        kani::assume(spec_fits(s[i] as i64, 25));
+        i += 1;
+    }
+    let mut errors = FixedLpcErrors::default();
+    reset_fixed_lpc_errors(&mut errors, &s);
+    let mut k = 0;
+    while k <= MAX_FIXED_LPC_ORDER {
+        let e = errors[k].as_ref();
+        assert!(e.len() == N);
+        let mut t = k;
+        while t < N {
+            let mut prev = [0i64; 4];
+            let mut j = 0;
+            while j < k {
+                prev[j] = s[t - 1 - j] as i64;
+                j += 1;
+            }
+            assert!(spec_fixed_predict(k, &prev) + e[t] as i64 == s[t] as i64);
+            t += 1;
+        }
+        k += 1;
+    }
+}
+
+//@ unit props=C01 tier=quick kind=bounded timeout=900 funcs="coding::reset_fixed_lpc_errors; SimdVec::reset_from_slice; SimdVec::resize" bound="3 samples (one 16-lane vector), every 25-bit value"
+#[kani::proof]
+#[kani::unwind(18)]
+fn c01_fixed_errors_n3() {
+    c01_fixed_errors_body::<3>();
+}
+
+//@ unit props=C01 tier=thorough kind=bounded timeout=3600 funcs="coding::reset_fixed_lpc_errors" bound="6 samples (orders 0..=4 all have at least two predicted samples), every 25-bit value"
+#[kani::proof]
+#[kani::unwind(18)]
+fn c01_fixed_errors_n6() {
+    c01_fixed_errors_body::<6>();
+}
